@@ -9,14 +9,14 @@ from .. import common as C, gref, corpus as K, astcmp as A, relcheck as R
 from . import c01
 
 PROP = 'C08'
-GLOBAL_LAYOUTS = ['crlf', 'cr', 'tab', 'bom', 'nofinalnl', 'comments', 'comments-crlf-tab', 'spread', 'spread-comments']
+GLOBAL_LAYOUTS = ['crlf', 'cr', 'tab', 'bom', 'nofinalnl', 'comments', 'comments-crlf-tab', 'spread', 'spread-comments', 'trivia-run']
 gref.LAYOUTS.setdefault('indent1', gref.Layout('indent1', indent=' '))
 gref.LAYOUTS.setdefault('indent2tabs', gref.Layout('indent2tabs', indent='\t\t'))
 gref.LAYOUTS.setdefault('indent8', gref.Layout('indent8', indent='        '))
 GLOBAL_LAYOUTS += ['indent1', 'indent2tabs', 'indent8']
 INSERT_LINES = ['', '   ', '# c', '\x0c', '\t# c', '        # é', ' \t']
 LINE_ENDS = [' ', '\t', ' # c', '\x0c', ' #']
-IN_BRACKET = ['\n', '\n        ', ' # c\n  ', '\r\n\t', '\r', ' # c\r\t']
+IN_BRACKET = ['\n', '\n        ', ' # c\n  ', '\r\n\t', '\r', ' # c\r\t', '\n\n \t', '\n# c\n \t', '\n\n\t ']
 OUT_BRACKET = [' \\\n', '\\\n        ', ' \\\r\n', ' \\\r', '\\\r\t']
 
 
